@@ -136,7 +136,7 @@ pub fn radix_supported(r: u32) -> bool {
 }
 
 /// punctuation character (0 = unset): printable/whitespace ASCII, not a sign, not a digit of the widest digit radix
-fn punct_ok(f: u128, c: u8) -> bool {
+pub fn punct_ok(f: u128, c: u8) -> bool {
     if c == 0 { return true; }
     let ascii = (c >= 0x09 && c <= 0x0d) || (c >= 0x20 && c < 0x7f);
     let r = if f_mradix(f) > f_eradix(f) { f_mradix(f) } else { f_eradix(f) };
